@@ -66,7 +66,7 @@ OwnAckCompletes(r) == \A c \in {x \in Callers(r) : ~r.calls[x].abandon} :
 SubResult(r) == \A c \in Callers(r) :
   (r.calls[c].kind = "sub" /\ RPos(r, c) # 0 /\ RPos(r, c) < QPos(r) /\ WPos(r, c) # 0) =>
      LET a == SAfter(r, "SUBACK", IdOf(r, c), WPos(r, c))  ret == r.evs[RPos(r, c)] IN
-     a # 0 => IF Len(r.evs[a].codes) = NFilters(r, c)
+     (a # 0 /\ a < RPos(r, c)) => IF Len(r.evs[a].codes) = NFilters(r, c)
               THEN ret.res = "ok" /\ ret.granted = r.evs[a].codes
               ELSE ret.res = "invalidsuback"
 
